@@ -5,17 +5,25 @@ open Scryer
 
 /-! ## radix -/
 
+theorem horner_cons (r : Nat) (c : Char) (cs : List Char) :
+    horner r (c :: cs) = digitVal c * r ^ cs.length + horner r cs := by
+  have := foldl_horner_start r cs (0 * r + digitVal c)
+  simp only [horner, List.foldl_cons] at this ⊢
+  rw [this]; simp
+
 theorem horner_lt_pow {r : Nat} (hr : 1 ≤ r) (cs : List Char) (h : ∀ c ∈ cs, digitVal c < r) :
     horner r cs < r ^ cs.length := by
-  induction cs using List.reverseRecOn with
+  induction cs with
   | nil => simp [horner_nil]
-  | append_singleton cs c ih =>
-    rw [horner_snoc, List.length_append, List.length_singleton, pow_succ]
+  | cons c cs ih =>
+    rw [horner_cons, List.length_cons, pow_succ]
     have h1 := ih (fun x hx => h x (by simp [hx]))
     have h2 : digitVal c < r := h c (by simp)
-    calc horner r cs * r + digitVal c < horner r cs * r + r := by omega
-      _ = (horner r cs + 1) * r := by ring
-      _ ≤ r ^ cs.length * r := Nat.mul_le_mul_right r h1
+    have h3 : digitVal c + 1 ≤ r := h2
+    calc digitVal c * r ^ cs.length + horner r cs < digitVal c * r ^ cs.length + r ^ cs.length := by omega
+      _ = (digitVal c + 1) * r ^ cs.length := by ring
+      _ ≤ r * r ^ cs.length := Nat.mul_le_mul_right _ h3
+      _ = r ^ cs.length * r := Nat.mul_comm _ _
 
 theorem sign_prefix (i : Int) (ds : List Char) :
     (if i < 0 then '-' :: ds else ds) = (if i < 0 then ['-'] else []) ++ ds := by
@@ -202,13 +210,13 @@ theorem groups3_sep_positions (sep : Char) (l : List Char) (hs : sep ∉ l) :
 
 /-! ## columns -/
 
-theorem renderCell_length (from_ to : Int) (segs : List Seg) (hp : countPads segs ≠ 0) :
-    ((renderCell from_ to segs).length : Int) = max (to - from_) (textWidth segs) := by
+theorem renderCell_length (from_ to_ : Int) (segs : List Seg) (hp : countPads segs ≠ 0) :
+    ((renderCell from_ to_ segs).length : Int) = max (to_ - from_) (textWidth segs) := by
   rw [renderCell, fill_length _ _ (glueSizes_length _ _), glueSizes_sum hp]
   omega
 
-theorem renderCell_no_pads (from_ to : Int) (segs : List Seg) (hp : countPads segs = 0) :
-    renderCell from_ to segs = allText segs := by
+theorem renderCell_no_pads (from_ to_ : Int) (segs : List Seg) (hp : countPads segs = 0) :
+    renderCell from_ to_ segs = allText segs := by
   rw [renderCell, fill_no_pads _ _ hp]
 
 /-- every glue but the last gets `space / k`, the last one gets the remainder too. -/
@@ -226,8 +234,9 @@ theorem glueSizes_shape {k : Nat} (hk : k ≠ 0) {space : Int} (hs : 0 < space) 
   split
   · rename_i h0
     rw [h0, Nat.add_zero]
-    have : k = (k - 1) + 1 := by omega
-    conv_lhs => rw [this, List.replicate_succ']
+    generalize space.toNat / k = q
+    obtain ⟨j, rfl⟩ := Nat.exists_eq_succ_of_ne_zero hk
+    simp [List.replicate_succ']
   · rfl
 
 end Scryer.Format
